@@ -1175,6 +1175,38 @@ func valueRange(x *vn) (lo, hi *big.Int, ok bool) {
 			}
 		}
 	case "bin":
+		if x.tok == token.SHL && x.args[1].op == "const" {
+			if k, ok := constValInt(x.args[1].c); ok && k.Sign() >= 0 && k.Int64() < 62 {
+				if l0, h0, ok0 := valueRange(x.args[0]); ok0 && l0.Sign() >= 0 {
+					h := new(big.Int).Lsh(h0, uint(k.Int64()))
+					if h.Cmp(thi) <= 0 {
+						return big.NewInt(0), h, true
+					}
+				}
+			}
+		}
+		if x.tok == token.SHR && x.args[1].op == "const" {
+			if k, ok := constValInt(x.args[1].c); ok && k.Sign() >= 0 && k.Int64() < 64 {
+				if l0, h0, ok0 := valueRange(x.args[0]); ok0 && l0.Sign() >= 0 {
+					return big.NewInt(0), new(big.Int).Rsh(h0, uint(k.Int64())), true
+				}
+			}
+		}
+		if x.tok == token.OR || x.tok == token.XOR {
+			l0, h0, ok0 := valueRange(x.args[0])
+			l1, h1, ok1 := valueRange(x.args[1])
+			if ok0 && ok1 && l0.Sign() >= 0 && l1.Sign() >= 0 {
+				m := h0
+				if h1.Cmp(m) > 0 {
+					m = h1
+				}
+				// next power of two minus one
+				h := new(big.Int).Sub(new(big.Int).Lsh(big.NewInt(1), uint(m.BitLen())), big.NewInt(1))
+				if h.Cmp(thi) <= 0 {
+					return big.NewInt(0), h, true
+				}
+			}
+		}
 		if x.tok == token.AND {
 			// x & c  ∈ [0, c] for non-negative c
 			for _, a := range x.args {
